@@ -175,6 +175,18 @@ def h_screen(ctx, cfg):
         if c == 0:
             ctx.observe("ids", [after["treatment_ids"], after["sample_ids"], after["plate_ids"]])
         _compare(ctx, before, after, "cycle %d" % (c + 1))
+    # histories on one path name: a loaded screen is an object of its own (changing it changes neither the file nor a later
+    # load), and a file that is written again loads as what was written last
+    np = ctx.np
+    fn0 = ctx.tmp("screen_0.h5")
+    first = data.Screen.load_h5(fn0)
+    R = len(before["observation_mask"])
+    first.set_observed(np.array([True] * R, dtype=bool), np.array([0.125 + 0.25 * i for i in range(R)], dtype=float))
+    second = data.Screen.load_h5(fn0)
+    _compare(ctx, before, _snapshot(second), "second load of one file, after the first loaded screen was modified")
+    changed = _snapshot(first)
+    first.save_h5(fn0)
+    _compare(ctx, changed, _snapshot(data.Screen.load_h5(fn0)), "load after the file was written again")
     return len(before["treatment_mapping[0]"])
 
 
